@@ -51,7 +51,7 @@ func TestTrieWriterLevels(t *testing.T) {
 		}
 		if run.Thorough() {
 			big = []int64{B*B - 1, B * B, B*B + 1, B*B + B, B*B + B + 1, 2*B*B + 1, B*B + 3*B + 7}
-			lasts = []int64{1, CS, 0}
+			lasts = []int64{1, 0}
 		}
 		for _, l := range big {
 			for _, last := range lasts {
@@ -198,7 +198,7 @@ func TestVirtualJoiner(t *testing.T) {
 		for _, n := range ns {
 			cases = append(cases, vCase{ID: fmt.Sprintf("%s/N%d", modeName(enc), n), N: n, Encrypt: enc})
 		}
-		for i := 0; i < run.N(10, 40); i++ {
+		for i := 0; i < run.N(10, 24); i++ {
 			cases = append(cases, vCase{ID: fmt.Sprintf("%s/rnd%d", modeName(enc), i), N: -1, Encrypt: enc})
 		}
 	}
@@ -238,9 +238,9 @@ func TestVirtualJoiner(t *testing.T) {
 				return
 			}
 			r := &reader{c: c, run: run, prefix: pre, j: j, size: N, w: w, expect: vt.Expect}
-			reads := run.N(60, 200)
+			reads := run.N(60, 150)
 			if vc.Encrypt {
-				reads = run.N(24, 80)
+				reads = run.N(24, 50)
 			}
 			for k := 0; k < reads; k++ {
 				off := boundaryOffset(rng, vt.T)
